@@ -2,6 +2,8 @@
 implementation-vs-Spec checks that double as the failing-input search."""
 from __future__ import annotations
 
+import os
+
 from realops import common, hx, real, unhx
 from streams import DIGITS, UPPER, Streams, U, iban_check_digits
 
@@ -237,6 +239,14 @@ def c02(run):
             for k in range(100):
                 ops.append(["iban.new", hx(cc + "%02d" % k + b), "F", "F"])
                 meta.append(("pair", cc, b, "%02d" % k))
+    # BBANs that carry a word of the source code (whatever text the code singles out is written in it)
+    for cc, b in S.bbans_with_tokens(per_token=1, max_tokens=run.scale(150, 2000)):
+        dd = iban_check_digits(cc, b)
+        ops.append(["iban.from_bban", hx(cc), hx(b)])
+        meta.append(("from", cc, b, dd))
+        for k in sorted({0, 1, 2, 97, 98, 99, int(dd), (int(dd) + 1) % 100}):
+            ops.append(["iban.new", hx(cc + "%02d" % k + b), "F", "F"])
+            meta.append(("pair", cc, b, "%02d" % k))
     reals, _ = run.correspond("from_bban+pairs", ops)
     sp = spec_lines([["spec.check_digits", hx(m[1]), hx(m[2])] for m in meta if m[0] == "from"])
     si = 0
@@ -374,6 +384,23 @@ def c05(run):
             texts += [i, S.mutate(i), S.mutate(S.mutate(i))]
     for _ in range(run.scale(2500, 100000)):
         texts.append(S.malformed())
+    # valid IBANs inside a lot of whitespace (raw lengths around and beyond 34, 42, 64, 128): the raw
+    # length of the argument is no defect
+    _, spaces_, _ = U()
+    for _ in range(run.scale(60, 2000)):
+        i = S.iban()
+        k = r.choice([3, 9, 20, 31, 43, 65, 100, 129, 300])
+        kind = r.randrange(4)
+        if kind == 0:
+            t = i.ljust(len(i) + k)
+        elif kind == 1:
+            t = " " * k + i
+        elif kind == 2:
+            sep = r.choice([" ", "  ", "\t", " \n", "\u00a0", "\u2003 "])
+            t = sep.join(i[j:j + 4] for j in range(0, len(i), 4)) + "\r\n" * (k // 8)
+        else:
+            t = "".join(ch + r.choice(spaces_) * r.randint(0, 1 + k // len(i)) for ch in i)
+        texts.append(t)
     digits, spaces, to_ascii = U()
     for d in (digits if run.tier == "thorough" else r.sample(digits, 60)):
         texts.append("DE" + d + "9370400440532013000")
@@ -542,6 +569,22 @@ def c11(run):
     for i in ibans:
         ops.append(["iban.parts", hx(i)])
         ops.append(["iban.from_bban", hx(i[:2]), hx(i[4:])])
+    # texts whose check digits are congruent to the right ones modulo 97 (00/01/99): if one is accepted,
+    # re-assembling it from its country code and BBAN does not give it back
+    alias_ops = []
+    for cc in S.r.sample(S.countries, run.scale(40, len(S.countries))):
+        for dd, alias in (("02", "99"), ("98", "01"), ("97", "00")):
+            i = S.iban_with_dd(cc, dd)
+            if i is not None:
+                alias_ops.append(["iban.new", hx(cc + alias + i[4:]), "F", "F"])
+    alias_reals, _ = run.correspond("alias check digits", alias_ops)
+    for f, a in zip(alias_ops, alias_reals):
+        if a.startswith("ok "):
+            t = unhx(f[1])
+            back = real(["iban.from_bban", hx(t[:2]), hx(t[4:])])
+            run.violation("IBAN.from_bban(iban.country_code, iban.bban)", [t], back, "ok " + f[1],
+                          "an accepted IBAN is not what its country code and BBAN re-assemble to", op=f,
+                          expected_line="err")
     reals, _ = run.correspond("iban accessors", ops)
     from realops import COMPONENT_ORDER
 
@@ -1069,6 +1112,8 @@ def c12(run):
             codes = r.sample(codes, min(len(codes), 40))
         else:
             run.exhaustive = True
+        # entries that lack an expected key are always looked up
+        codes += sorted({e.get("bank_code", "") for e, _ in S.malformed_entries if e.get("country_code") == cc} - set(codes))
         for code in codes + ["", "99999999", codes[0] + "0" if codes else "1"]:
             for op in ("bic.candidates", "bic.from_bank_code"):
                 ops.append([op, hx(cc), hx(code)])
@@ -1532,6 +1577,8 @@ def c08(run):
                 vals["bank_code"] = draw("bank_code", w["bank_code"], False) + draw("branch_code", w["branch_code"], False)
                 if j % 14 == 0:
                     vals["branch_code"] = ""
+                    if j % 28 == 0:                    # one to three characters beyond the combined width
+                        vals["bank_code"] += draw("branch_code", r.randint(1, 3), False)
                 elif j % 21 == 0:                      # explicit branch made of zeros / blanks
                     vals["branch_code"] = r.choice(["0" * w["branch_code"], "0", "00", " ", "0 0"])
             if j % 11 == 0:
@@ -2015,6 +2062,8 @@ def c15(run):
         run.notes.append("revisit child died")
     else:
         o1, o2 = outs
+        import natref as _nr
+        reported = 0
         for k, t in enumerate(tri):
             a, b_, c = o1[3 * k: 3 * k + 3]
             run.count(3, key=("revisit", k), tag="revisit " + t[0][0])
@@ -2023,6 +2072,35 @@ def c15(run):
                 run.violation("call after a history", [readable_op(x) for x in t], c, want,
                               "the same call gave another outcome two calls earlier in the same process",
                               kind="history", history=t, op=t[0], expected_line=want)
+                continue
+            # a verdict that the published rule contradicts although the call is right when made first:
+            # some earlier call of the history left state behind (find a short history that shows it)
+            for j, (op, out) in enumerate(zip(t, (a, b_, c))):
+                if op[0] != "algo.validate" or reported >= 3:
+                    continue
+                w = _nr.de(unhx(op[1])[3:], unhx(op[3]))
+                if not isinstance(w, bool) or (out == "ok T") == w:
+                    continue
+                want = first_call(op)
+                if want == out:
+                    continue
+                idx = 3 * k + j
+                lo, hi = 0, idx            # smallest suffix flat[lo:idx] that still spoils the call
+                while lo < hi:
+                    mid = (lo + hi + 1) // 2
+                    h2 = flat[mid:idx] + [op]
+                    o3 = sched.in_child(lambda h2=h2: [real(x) for x in h2][-1])
+                    if o3 is not None and o3 != want:
+                        lo = mid
+                    else:
+                        hi = mid - 1
+                hist2 = flat[lo:idx] + [op]
+                if len(hist2) > 40:
+                    hist2 = hist2[:1] + hist2[-39:]
+                reported += 1
+                run.violation("call after a history", [readable_op(x) for x in hist2[-6:]], out, want,
+                              "same call as the first call of a fresh process (the published rule agrees with "
+                              "the first-call outcome)", kind="history", history=hist2, op=op, expected_line=want)
         for k in range(0, len(xseq) - 11, 12):      # 4 visits x 3 kinds per (A, B, text)
             grp_ops, grp_out = xseq[k:k + 12], o2[k:k + 12]
             for j in range(6):
@@ -2109,6 +2187,35 @@ def c14(run):
             run.violation("two concurrent calls", [readable_op(o) for o in ops], got, want,
                           "line-level schedule search on the real code", kind="schedule", ops=ops,
                           schedule=sch, expected_alone=want)
+    # the effect probe saw the library write shared state after import (lazily built tables, caches …):
+    # look for an interleaving of the FIRST uses in a process, every schedule in a fresh interpreter
+    import checklib as _cl
+    eff = ""
+    try:
+        eff = open(os.path.join(_cl.LEAN, "SV", "Gen", "Effects.lean"), encoding="utf-8").read()
+    except OSError:
+        pass
+    dirty = [n for n in ("sharedWritesAfterImport", "moduleStateWrites", "sharedScratch")
+             if _re.search(r"def " + n + r" : List String := \[\S", eff)]
+    if dirty:
+        run.notes.append("effect probe: " + ", ".join(dirty) + " non-empty -> cold-start schedule search")
+        bad_be = "BE" + iban_check_digits("BE", "539007547035") + "539007547035"
+        bad_es = "ES" + iban_check_digits("ES", "21000418460200051332") + "21000418460200051332"
+        cold = [[["iban.new", hx(bad_be), "F", "T"], ["iban.new", hx(bad_es), "F", "T"]],
+                [["iban.generate", hx("BE"), hx("539"), hx("0075470"), hx("")],
+                 ["iban.new", hx(bad_be), "F", "T"]],
+                [["bic.from_bank_code", hx("DE"), hx("43060967")], ["bban.bank", hx("DE"), hx("370400440532013000")]],
+                [["iban.new", hx("DE65100307000100000111"), "F", "T"], ["bic.candidates", hx("DE"), hx("10030700")]]]
+        for ops in cold:
+            n, found = sched.search_cold(ops, limit=run.scale(32, 400))
+            total += n
+            run.count(n, key=("cold",) + tuple(map(tuple, ops)), tag="cold schedules " + ops[0][0])
+            if found:
+                sch, got, want = found
+                run.violation("two concurrent first calls in a fresh process", [readable_op(o) for o in ops], got,
+                              want, "line-level schedule search, every schedule in a fresh interpreter",
+                              kind="schedule", ops=ops, schedule=sch, expected_alone=want, cold=True)
+                break
     run.samples.append({"pair": [readable_op(o) for o in pairs[0]], "schedules_run": total})
 
 
@@ -2338,8 +2445,11 @@ def c13(run):
       note="detection theorems proved on the model's arithmetic for all lengths; model = code by the C01 "
            "correspondence and by this stream")
 def c03(run):
+    import unicodedata
     S = Streams(run.seed * 1000 + 3)
     r = S.r
+    uni_digits = [d for d in U()[0] if not d.isascii()]
+    uni_letters = [chr(c) for c in range(0xC0, 0x3000) if chr(c).isalpha()][::7] + U()[2][:40]
     texts, ops = [], []
     per = run.scale(3, 50)
     for cc in S.countries:
@@ -2365,6 +2475,19 @@ def c03(run):
                 a, b2 = i[p], i[p + 1]
                 if a != b2 and ((a in DIGITS and b2 in DIGITS) or (a in UPPER and b2 in UPPER)):
                     muts.append(i[:p] + b2 + a + i[p + 2:])
+            # "a digit" / "a letter" read as widely as the library's own \d: decimal digits of other
+            # scripts (the same and another value) and letters that cleaning does not turn into the
+            # original character are different characters of the same kind, and must be rejected too
+            for p in r.sample(range(2, len(i)), 2):
+                if i[p] in DIGITS:
+                    same = [d for d in uni_digits if unicodedata.digit(d) == int(i[p]) and d != i[p]]
+                    for x in (r.choice(same), r.choice(uni_digits)):
+                        if x != i[p]:
+                            muts.append(i[:p] + x + i[p + 1:])
+                else:
+                    x = r.choice(uni_letters)
+                    if common.clean(x) != i[p]:
+                        muts.append(i[:p] + x + i[p + 1:])
             texts.append(("valid", i))
             texts += [("mutant", m) for m in muts]
     # check-digit values and country codes that occur as literals in the source (a special case for one
